@@ -14,26 +14,33 @@ use serde_json::{json, Value};
 use std::collections::BTreeMap;
 use std::io::{BufRead, BufReader, Write};
 use std::path::{Path, PathBuf};
-use std::process::{Child, ChildStdin, ChildStdout, Command, Stdio};
+use std::process::{Child, ChildStdin, Command, Stdio};
 
 const S: i128 = 1_000_000_000;
 
 struct CProg {
     child: Child,
     sin: ChildStdin,
-    sout: BufReader<ChildStdout>,
+    /// lines of the program's stdout, forwarded by a reader thread (so that a call that never returns is a
+    /// finding, not a hang of the harness)
+    lines: std::sync::mpsc::Receiver<String>,
     label: &'static str,
 }
+
+/// real seconds a single library call may take before it is reported as not returning
+const CALL_TIMEOUT_S: u64 = 20;
 
 impl CProg {
     fn ask(&mut self, line: &str) -> Result<String, String> {
         writeln!(self.sin, "{line}").map_err(|e| format!("C program ({}) is gone: {e}", self.label))?;
         self.sin.flush().map_err(|e| e.to_string())?;
-        let mut out = String::new();
-        match self.sout.read_line(&mut out) {
-            Ok(0) => Err(format!("C program ({}) terminated while processing: {line}", self.label)),
-            Ok(_) => Ok(out.trim_end().to_string()),
-            Err(e) => Err(e.to_string()),
+        match self.lines.recv_timeout(std::time::Duration::from_secs(CALL_TIMEOUT_S)) {
+            Ok(l) => Ok(l),
+            Err(std::sync::mpsc::RecvTimeoutError::Disconnected) => Err(format!("C program ({}) terminated while processing: {line}", self.label)),
+            Err(std::sync::mpsc::RecvTimeoutError::Timeout) => {
+                let _ = self.child.kill();
+                Err(format!("C program ({}) did not return within {CALL_TIMEOUT_S} s of real time from: {line}", self.label))
+            }
         }
     }
 }
@@ -63,7 +70,20 @@ fn start_c(bin: &Path, label: &'static str) -> Result<CProg, String> {
     let mut child = Command::new(bin).stdin(Stdio::piped()).stdout(Stdio::piped()).stderr(Stdio::null()).spawn().map_err(|e| format!("cannot start {}: {e}", bin.display()))?;
     let sin = child.stdin.take().unwrap();
     let sout = BufReader::new(child.stdout.take().unwrap());
-    Ok(CProg { child, sin, sout, label })
+    let (tx, lines) = std::sync::mpsc::channel();
+    std::thread::spawn(move || {
+        for l in sout.lines() {
+            match l {
+                Ok(l) => {
+                    if tx.send(l.trim_end().to_string()).is_err() {
+                        break;
+                    }
+                }
+                Err(_) => break,
+            }
+        }
+    });
+    Ok(CProg { child, sin, lines, label })
 }
 
 fn parse_abi(line: &str) -> BTreeMap<String, String> {
@@ -387,6 +407,39 @@ fn differential(ctx: &Ctx, bin: &Path, label: &'static str, t: &mut Tally, sampl
             crate::seqmc::engine::close_leaked_fds(&path);
         }
     }
+    // (d) a system call made while opening a valid segment fails once (open, the header read, mmap; several
+    // errno values including the "try again" ones): both libraries must report the same kind and errno
+    {
+        use crate::common::iofault;
+        let path = dir.join("seg-d");
+        let _ = std::fs::remove_file(&path);
+        let mut w = ShmWriter::new(&path).map_err(|e| e.to_string())?;
+        w.write(&Rec { as_of_s: 5000, as_of_ns: 0, va_s: 6000, va_ns: 0, bound: 1000, drift: 1000, reserved: 0, status: 1 }.to_ceb());
+        for (call, name) in [(iofault::CALL_OPEN, "open"), (iofault::CALL_READ, "read"), (iofault::CALL_MMAP, "mmap")] {
+            for errno in [libc::EINTR, libc::EAGAIN, libc::EIO, libc::ENOMEM, libc::EACCES, libc::EMFILE] {
+                for nth in [0u32, 1] {
+                    n += 1;
+                    iofault::fail_call_once(call, nth, errno);
+                    let r1 = rust_open(&path, &abi);
+                    let fired = iofault::clear_once();
+                    let armed = c.ask(&format!("F {call} {nth} {errno}"))?;
+                    if armed != "armed" {
+                        return Err(format!("the C program did not arm the fault: {armed}"));
+                    }
+                    let cl = c.ask(&format!("O {}", path.display()))?;
+                    if fired {
+                        t.nontrivial += 1;
+                    }
+                    *t.classes.entry(format!("{name} fails once: {}", r1.split(' ').take(3).collect::<Vec<_>>().join(" "))).or_insert(0) += 1;
+                    if cl != r1 {
+                        t.add("C17:c-differs-from-rust:open-with-failing-syscall", format!("valid segment, call number {nth} of {name}(2) during the open fails once with errno {errno}: clockbound_open says '{cl}', the Rust client says '{r1}'"), json!({"check": "C17", "part": "open with a failing system call", "library": label, "call": name, "nth": nth, "errno": errno, "c": cl, "rust": r1}));
+                    }
+                }
+            }
+        }
+        drop(w);
+        crate::seqmc::engine::close_leaked_fds(&path);
+    }
     drop(c.sin);
     let _ = c.child.wait();
     Ok((n, abi))
@@ -418,6 +471,8 @@ pub fn run(ctx: &Ctx) -> i32 {
                 Err(e) => {
                     if e.contains("terminated while processing") {
                         t.add("C17:c-library-crashes", e, json!({"check": "C17", "part": "differential", "library": label}));
+                    } else if e.contains("did not return within") {
+                        t.add("C17:c-library-does-not-return", format!("{e} (the Rust client answered the same case at once)"), json!({"check": "C17", "part": "differential", "library": label}));
                     } else {
                         machinery_failure(&e);
                     }
@@ -428,7 +483,7 @@ pub fn run(ctx: &Ctx) -> i32 {
     let coverage = cov(vec![
         ("evaluations", json!(t.n)),
         ("distinct_nontrivial", json!(t.nontrivial)),
-        ("rule", json!("layout: product of field alphabets x 3 statuses written by the real ShmWriter and decoded from the file with offsets transcribed from docs/PROTOCOL.md; ABI: a C program compiled against clockbound.h and linked with the freshly built shared and static library, compared with the Rust client on the same segment at the same virtual instant over a record x age grid, injected clock failures and the C16 file alphabet; all distinct; non-trivial = error cases and non-Unknown records")),
+        ("rule", json!("layout: product of field alphabets x 3 statuses written by the real ShmWriter and decoded from the file with offsets transcribed from docs/PROTOCOL.md; ABI: a C program compiled against clockbound.h and linked with the freshly built shared and static library, compared with the Rust client on the same segment at the same virtual instant over a record x age grid, injected clock failures, the C16 file alphabet, sequences of segment mutations under open contexts, and one failing open/read/mmap (6 errno values) during the open; all distinct; non-trivial = error cases and non-Unknown records")),
         ("samples", json!(samples)),
         ("layout_records", json!(layout_n)),
         ("differential", json!(libs)),
